@@ -229,7 +229,7 @@ impl SubCheckT for FfRandom {
     const NAME: &'static str = "finite_field_primes";
     const RULE: &'static str = "for each of the 7 exported primes (and the small ones): triples of residues drawn from {0,1,2,P-1,P-2,P/2,P/2+-1} and uniformly random 128-bit values reduced mod P; add/mul/sub compared with the harness's overflow-free modular arithmetic, all semiring laws, (a+b)-b = a, a-a = 0, new(v) = v mod P for v up to u128::MAX. Non-trivial: pairwise distinct residues > 1";
     fn cases(tier: Tier) -> u32 {
-        tier.pick(60_000, 2_000_000)
+        tier.pick(200_000, 2_000_000)
     }
     fn strategy(_tier: Tier) -> BoxedStrategy<FfCase> {
         (6u8..13, res_strategy(), res_strategy(), res_strategy())
@@ -458,7 +458,7 @@ impl SubCheckT for Numeric {
     const NAME: &'static str = "real_complex_eu_bool_rational";
     const RULE: &'static str = "triples of exactly representable values (integers in [-64,64], dyadics k/8) for the real, complex and expected-utility types, all Boolean triples, naturals < 40 built from one()/zero() for the rational type: semiring laws with exact equality, ring subtraction inverts addition, join/meet idempotent/commutative/associative, and for every PartialOrd-related pair join = choose = larger, meet = smaller. Non-trivial: first components pairwise distinct and none is 0 or 1";
     fn cases(tier: Tier) -> u32 {
-        tier.pick(40_000, 1_500_000)
+        tier.pick(150_000, 1_500_000)
     }
     fn strategy(_tier: Tier) -> BoxedStrategy<NumCase> {
         (
@@ -606,7 +606,7 @@ impl SubCheckT for Poly {
     const NAME: &'static str = "polynomial";
     const RULE: &'static str = "triples of polynomials with 0..32 small integer coefficients (products that hit the 32-coefficient truncation included) over the reals and over GF(7), GF(2^64-59), GF(U128_LARGE_2): semiring laws coefficient-wise (the len field's trailing zeros are ignored) and product/sum against the harness's own truncated convolution. Non-trivial: all three operands have >= 2 coefficients";
     fn cases(tier: Tier) -> u32 {
-        tier.pick(6000, 200_000)
+        tier.pick(20_000, 200_000)
     }
     fn strategy(_tier: Tier) -> BoxedStrategy<PolyCase> {
         (coeffs_strategy(), coeffs_strategy(), coeffs_strategy())
